@@ -2,9 +2,12 @@ package main
 
 import (
 	"fmt"
+	"go/ast"
 	"os"
 	"runtime/debug"
 	"strings"
+
+	"golang.org/x/tools/go/ssa"
 )
 
 // Withdrawal of alarms on normalised forms (DESIGN §12.4). A rule that cannot discharge an obligation on the
@@ -97,7 +100,7 @@ func withdrawOnNormalForms(c *Ctx, fs *formSet, verbose bool) {
 	}
 	attempted := map[string]int{}
 	for _, o := range c.Obls {
-		if o.Verdict != Noted {
+		if o.Verdict != Noted && !((o.Verdict == Violated || o.Verdict == Undecided) && known[o.Key()]) {
 			attempted[o.Rule]++
 		}
 	}
@@ -118,6 +121,30 @@ func withdrawOnNormalForms(c *Ctx, fs *formSet, verbose bool) {
 			order = append(order, formSpec{"targeted", 1, tg}, formSpec{"callee", 1, tg}, formSpec{"targeted", 2, tg}, formSpec{"callee", 2, tg}, formSpec{"targeted", 3, tg})
 		}
 		order = append(order, normalFormOrder...)
+		// the helpers the failing functions call (the mechanism may have been restructured one or two levels down)
+		nc := 0
+		if len(targetsOf(c0, known, "")) == 0 {
+			// nothing names a function ("... not found"): the functions that pass function literals to module helpers
+			// (a loop turned into a higher-order helper hides what the loop tested)
+			for _, g := range higherOrderCallers(c.P) {
+				if seen["1:"+g] || nc >= 6 {
+					continue
+				}
+				seen["1:"+g] = true
+				nc++
+				order = append(order, formSpec{"targeted", 2, []string{g}})
+			}
+		}
+		for _, tg := range [][]string{targetsOf(c0, known, r.ID), targetsOf(c0, known, "")} {
+			for _, g := range helperCandidates(c.P, tg) {
+				if seen["1:"+g] || nc >= 10 {
+					continue
+				}
+				seen["1:"+g] = true
+				nc++
+				order = append(order, formSpec{"targeted", 2, []string{g}}, formSpec{"targeted", 1, []string{g}})
+			}
+		}
 		for _, nfo := range order {
 			nf := fs.form(nfo.kind, nfo.rounds, nfo.targets)
 			if nf.Err != nil || nf.Prog == nil {
@@ -176,4 +203,85 @@ func withdrawOnNormalForms(c *Ctx, fs *formSet, verbose bool) {
 			break
 		}
 	}
+}
+
+// helperCandidates: the declared module functions reachable from the named functions through static calls (at most
+// three levels down), nearest first, without the named functions themselves.
+func helperCandidates(p *Program, names []string) []string {
+	cg := p.callGraph()
+	seen := map[*ssa.Function]bool{}
+	var frontier []*ssa.Function
+	for _, n := range names {
+		if fn := p.fn(n); fn != nil {
+			seen[fn] = true
+			frontier = append(frontier, fn)
+		}
+	}
+	var out []string
+	outSeen := map[string]bool{}
+	for depth := 0; depth < 3 && len(frontier) > 0; depth++ {
+		var next []*ssa.Function
+		for _, fn := range frontier {
+			for _, f := range withClosures(fn) {
+				for _, e := range cg.Out[f] {
+					if e.Kind != EdgeStatic {
+						continue
+					}
+					g := topFunc(e.Callee)
+					if seen[g] || !p.inModule(g) || g.Blocks == nil || g.Synthetic != "" {
+						continue
+					}
+					seen[g] = true
+					next = append(next, g)
+					if n := p.fname(g); !outSeen[n] {
+						outSeen[n] = true
+						out = append(out, n)
+					}
+				}
+			}
+		}
+		frontier = next
+	}
+	return out
+}
+
+// higherOrderCallers: declared functions of the root package in which a function literal is an argument of a call of
+// a declared module function.
+func higherOrderCallers(p *Program) []string {
+	pk := p.rootPackage()
+	if pk == nil {
+		return nil
+	}
+	tmp := &inliner{p: p, pk: pk}
+	var out []string
+	for _, f := range pk.Syntax {
+		if strings.HasSuffix(p.Fset.Position(f.Pos()).Filename, "_test.go") {
+			continue
+		}
+		for _, d := range f.Decls {
+			fd, ok := d.(*ast.FuncDecl)
+			if !ok || fd.Body == nil {
+				continue
+			}
+			found := false
+			ast.Inspect(fd.Body, func(n ast.Node) bool {
+				call, ok := n.(*ast.CallExpr)
+				if !ok || found {
+					return !found
+				}
+				if fn := tmp.staticCallee(call); fn != nil && fn.Pkg() == pk.Types {
+					for _, a := range call.Args {
+						if _, isLit := ast.Unparen(a).(*ast.FuncLit); isLit {
+							found = true
+						}
+					}
+				}
+				return !found
+			})
+			if found {
+				out = append(out, declDisplayName(fd))
+			}
+		}
+	}
+	return out
 }
